@@ -117,9 +117,9 @@ theorem step_of_e {s : St} {a : EAct} (h : s.exited = none) : step s (.e a) = eS
 
 /-- a worker step: worker `i` moves from `p` to `q`, writes its slot, and touches the mutexes -/
 theorem w_step_facts {s s' : St} {i : Nat} {a : WAct} (hs : wStep s i a = some s') :
-    ∃ p q, s.ws[i]? = some p ∧ wNext a p (tsAt s i == .canceled) = some q ∧
+    ∃ p q, s.ws[i]? = some p ∧ wNext s.g a p (tsAt s i == .canceled) = some q ∧
       (a = .lockT → s.thd = .none) ∧ (a = .lock → s.own = .none) ∧
-      s' = wEffect i { s with ws := s.ws.set i q, ts := s.ts.set i (wWrite a p (tsAt s i)) } a := by
+      s' = wEffect i { s with ws := s.ws.set i q, ts := s.ts.set i (wWrite s.g a p (tsAt s i)) } a := by
   simp only [wStep] at hs
   split at hs
   · simp at hs
@@ -172,7 +172,7 @@ theorem exec_params {s0 s : St} {ls : List Label} (he : Exec s0 ls s) :
     exact ⟨this.1.trans ih.1, this.2.1.trans ih.2.1, this.2.2.1.trans ih.2.2.1, this.2.2.2.1.trans ih.2.2.2.1,
            this.2.2.2.2.trans ih.2.2.2.2⟩
 
-theorem reach_params {v f n b t0 s} (h : Reach v f n b t0 s) :
+theorem reach_params {v g f n b t0 s} (h : Reach v g f n b t0 s) :
     s.v = v ∧ s.f = f ∧ s.batch = b ∧ s.ws.length = n ∧ s.ts.length = n := by
   obtain ⟨ls, he⟩ := h
   have := exec_params he
